@@ -451,6 +451,9 @@ func (g *genCtx) policy() PolicySpec {
 	default:
 		p.DelayP = 0.1
 	}
+	// half of the runs keep consecutive engine steps at one simulated instant (ties
+	// between timestamps), the others give every durable write a duration
+	p.WriteLatUs = Pick(r, []int64{0, 0, 0, 0, 0, 1, 1, 250, 250, 3000})
 	if g.profile == "C12" {
 		p.ReplyP = Pick(r, []float64{0, 0.2, 0.5})
 	} else if r.Bool(0.1) {
